@@ -84,7 +84,13 @@ CmdXAdd(s, now, a, h) ==
                     [] pid.kind = "ms"     -> pid.id
                     [] pid.kind = "msstar" -> IF pid.id.ms = last.ms THEN IdOf(last.ms, BigAdd(last.seq, BigOne)) ELSE IdOf(pid.id.ms, BigZero)
                     [] OTHER               -> IF hid.kind = "full" THEN hid.id ELSE IdOf(last.ms, BigAdd(last.seq, BigOne))
-                okid == IdLess(last, newid)
+                \* the sequence part is a signed 64-bit number: after <ms>-9223372036854775807 there is no next id in that
+                \* millisecond. An automatic id then either fails (as built: "exhausted the last possible ID") or, when the
+                \* millisecond itself is not the last one, moves to <ms+1>-0 (what Redis does); a partial <ms>-* id fails.
+                needsNext == (pid.kind = "msstar" /\ pid.id.ms = last.ms) \/ (pid.kind = "auto" /\ hid.kind # "full")
+                exhausted == needsNext /\ last.seq = Int64Max
+                hidOK == pid.kind # "auto" \/ hid.kind # "full" \/ (InInt64(hid.id.ms) /\ InInt64(hid.id.seq))
+                okid == IdLess(last, newid) /\ ~exhausted /\ hidOK
                 fields == SubSeq(a, o.next + 1, Len(a))
                 es1 == Append(es, [id |-> newid, f |-> fields])
                 exact == IF o.trim = "maxlen" THEN TrimMax(es1, thMax.n) ELSE IF o.trim = "minid" THEN TrimMin(es1, thMin.id) ELSE es1
@@ -95,14 +101,17 @@ CmdXAdd(s, now, a, h) ==
                          \o (IF auto THEN ".id.auto" ELSE IF pid.kind = "msstar" THEN ".id.partial" ELSE IF pid.kind = "ms" THEN ".id.bare_ms" ELSE ".id.explicit")
                          \o (IF Has(s, k) THEN "" ELSE ".newkey")
                          \o (IF o.trim = "none" THEN "" ELSE "." \o o.trim \o (IF o.approx THEN ".approx" ELSE "") \o (IF Len(exact) < Len(es1) THEN ".trim" ELSE ".noop"))
-            IN IF ~okid THEN One(RErr, s, IF newid = last THEN "xadd.id.eq" ELSE "xadd.id.lt")
+            IN IF exhausted THEN One(RErr, s, "xadd.id.exhausted")
+               ELSE IF ~okid THEN One(RErr, s, IF newid = last THEN "xadd.id.eq" ELSE "xadd.id.lt")
                ELSE LET outs == [j \in 1..Len(keeps) |-> Out(RStr(IdStr(newid)), PutStream(s, k, keeps[j], newid), lbl)]
                     IN IF pid.kind = "ms" \/ pid.corner THEN AltErr(outs, s, lbl \o ".err_alt") ELSE outs
 
 \* ---- XRANGE key start end [COUNT n] ----
 ParseBound(b, isEnd) ==
   IF b = L_dash THEN [ok |-> TRUE, id |-> IdZero, corner |-> FALSE]
-  ELSE IF b = L_plus THEN [ok |-> TRUE, id |-> IdOf(SeqMax, SeqMax), corner |-> FALSE]
+  \* "+" is the greatest id there can be; both parts of an id are signed 64-bit numbers here (ParseNat), so that is
+  \* Int64Max-Int64Max: a stream whose last entry carries that id returns it for XRANGE + +
+  ELSE IF b = L_plus THEN [ok |-> TRUE, id |-> IdOf(Int64Max, Int64Max), corner |-> FALSE]
   ELSE LET p == ParseId(b) IN
        IF p.kind = "full" THEN [ok |-> TRUE, id |-> p.id, corner |-> p.corner]
        ELSE IF p.kind = "ms" THEN [ok |-> TRUE, id |-> IdOf(p.id.ms, IF isEnd THEN SeqMax ELSE BigZero), corner |-> p.corner]
